@@ -131,14 +131,15 @@ class Check(PropertyCheck):
                   "set_cookie_header_roundtrip and set_cookie_roundtrip (response cookies with attributes, one header per cookie); "
                   "multipart_roundtrip_partial (encode_multipart/decode_multipart as implemented — bytes.split on --boundary, splitlines, the "
                   "name regex, join — for every part list with keys free of quote/CR/LF, values free of CR/LF and no delimiter inside a written "
-                  "part: the decoded pairs are the encoded ones, by induction over the list) and multipart_roundtrip_counterexample (F-C34a); "
+                  "part: the decoded pairs are the encoded ones, by induction over the list), noEarly_piece and multipart_roundtrip (the same with "
+                  "every guard on the INPUT: boundary without CR and double quote, and --boundary occurring in no key, value or content type; "
+                  "the encoder's refusal is derived too) and multipart_roundtrip_counterexample (F-C34a); "
                   "form_view_roundtrip (urlencoded form: pairs read back, content type reset to the bare form type whatever charset it carried, "
                   "write-back is the identity) and query_view_roundtrip with urllib's urlencode/parse_qsl and the text codec as parameters. "
                   "Cookie, Set-Cookie, multipart and url.encode's style imitation are tied differentially to the real functions and views; all "
                   "six views are checked on the real Request/Response objects by the oracle.")
-    level_note = ("PARTIAL: multipart_roundtrip_partial states its delimiter guard on the written part (NoEarly (--boundary) (piece k v ct), "
-                  "decidable) rather than deriving it from 'key/value/content type do not contain --boundary'; encoder and decoder use the same "
-                  "boundary there (F-C34c is the case where urllib.quote changes it). form_view_roundtrip and query_view_roundtrip assume the "
+    level_note = ("PARTIAL: in the multipart theorems encoder and decoder use the same boundary (F-C34c is the case where urllib.quote changes it); "
+                  "the delimiter guard of multipart_roundtrip_partial is now derived from input-level conditions (noEarly_piece, multipart_roundtrip). form_view_roundtrip and query_view_roundtrip assume the "
                   "urllib laws (parse_qsl (urlencode ps) = ps; urlencode writes no parameter without '='; the bare form content type decodes "
                   "ASCII bytes back) and the guard that the existing body has no bare parameter (else F-C34e). The path_components view has no "
                   "theorem (oracle on the real objects only). Set-Cookie write-back of arbitrary received headers is not idempotent (F-C34f). "
